@@ -75,7 +75,10 @@ def assignments(spec, tier):
 def units(tier, seed):
     us = []
     for spec in shapes():
-        for asg in assignments(spec, tier):
+        asgs = list(assignments(spec, tier))
+        if tier == "quick" and spec["name"] == "WNu":
+            asgs = asgs[::3]  # same class structure as WN: a third of the assignments in the quick tier
+        for asg in asgs:
             us.append({"kind": "weights", "spec": spec, "weights": asg, "extractions": 3})
             if any(asg.get(a[0]) is not None and (a[2] == "decorator" or a[1] is not None) for a in spec["abstract"]):
                 # the two decorators stacked the other way round: @abstract above @weight(w)
